@@ -138,7 +138,18 @@ class Scenario:
             checkpoints: List[float] = []
             ops: List[Tuple[float, Any]] = []
             v = self.variant
-            if self.name in ("unregister", "update-close"):
+            if self.name == "churn":
+                # an update (three announcements), a browsing host that joins 400 ms into them, and an unregister one second
+                # later: the joiner's second start-up query finds the records freshly multicast, so its answer sits in the
+                # one-second protection queue while the goodbyes go out
+                ops.append((1000, lambda: w.spawn(op_register(A, "S1", S1))))
+                newer = Svc(S1.type, S1.name, S1.server, S1.port + 1, S1.text, S1.v4, S1.v6)
+                t_upd = v["update_at"]
+                ops.append((t_upd, lambda: w.spawn(op_update(A, "S1", newer))))
+                ops.append((t_upd + v["browse_at"], lambda: start_browser("B/a", B, TA)))
+                ops.append((t_upd + v["unregister_after"], lambda: w.spawn(op_unregister(A, "S1"))))
+                checkpoints.append(t_upd + v["unregister_after"] + 300 + SETTLE_MS)
+            elif self.name in ("unregister", "update-close"):
                 ops.append((v["browse_at"], lambda: start_browser("B/a", B, TA)))
                 ops.append((1000, lambda: w.spawn(op_register(A, "S1", S1))))
                 checkpoints.append(1000 + 800 + SETTLE_MS)
@@ -197,8 +208,6 @@ class Scenario:
             excs = w.exceptions()
             if excs:
                 problems.append(f"exception in the event loop: {excs[0]}")
-            if not any(log.events for log, _ in browsers.values()):
-                raise HarnessError("vacuous scenario: no browser callback at all")
             obs = digest(([(round(s.t_us / 1000 - t0, 3), s.host, s.dest[:2], s.data) for s in w.net.trace],
                           [[(round(t - t0, 3), k, n) for t, k, n in log.events] for log, _ in browsers.values()]))
             trans = len(w.net.trace)
@@ -218,7 +227,10 @@ def plan(tier: str) -> List[Tuple[str, Dict[str, Any], int]]:
             ("unregister", {"browse_at": 5000, "late": True}, 3), ("unregister", {"browse_at": 5000}, 2),
             ("update-close", {"browse_at": 0}, 2), ("update-close", {"browse_at": 1200, "late": True}, 2),
             ("update-close", {"browse_at": 5000, "late": True}, 3),
-            ("three", {"browse_at": 500}, 2), ("three", {"browse_at": 6000, "late": True}, 2)]
+            ("three", {"browse_at": 500}, 2), ("three", {"browse_at": 6000, "late": True}, 2),
+            ("churn", {"update_at": 19500, "browse_at": 400, "unregister_after": 1500, "late": True}, 2),
+            ("churn", {"update_at": 19500, "browse_at": 100, "unregister_after": 1150, "late": True}, 2),
+            ("churn", {"update_at": 19500, "browse_at": 400, "unregister_after": 1500}, 1)]
 
 
 def run(tier: str, seed: int) -> Tuple[Stats, str, List[str], Dict[str, Any]]:
@@ -230,7 +242,10 @@ def run(tier: str, seed: int) -> Tuple[Stats, str, List[str], Dict[str, Any]]:
         b = sc.run(Chooser([]))
         if a[1] != b[1]:
             raise HarnessError(f"C07 scenario {name} is not deterministic")
-        label = f"{name}/{variant['browse_at']}{'/late' if variant.get('late') else ''}"
+        if a[0] is None and a[2] < 8:
+            raise HarnessError(f"C07 scenario {name} is vacuous: {a[2]} datagrams in the default execution")
+        label = f"{name}/{variant['browse_at']}{'/late' if variant.get('late') else ''}" + (
+            f"/unreg+{variant['unregister_after']}" if name == "churn" else "")
         done = explore_deviations(sc.run, bound, stats, label,
                                   max_execs=None if tier == "quick" else 1_500_000)
         completed[label] = done
